@@ -962,7 +962,9 @@ extern "C" int LLVMFuzzerTestOneInput(const uint8_t* data, size_t size)
 	{
 		const char* want = getenv("VF_FUZZ_CLAUSE");
 		for(auto& c : registry())
-			if(!c.isolate && (!want || c.name == want))
+			// not under the fuzzer: fork-isolated clauses, the clause whose children really call exit (libFuzzer's exit hook would report each as a
+			// crash), and the batch clauses (one case = hundreds of minimisations / integrations)
+			if(!c.isolate && c.name != "real_process" && c.name != "nelder_mead_convergence_rate" && c.name != "unbiasedness" && (!want || c.name == want))
 				usable.push_back(&c);
 		if(usable.empty())
 			return 0;
